@@ -44,6 +44,7 @@ type TypeShape struct {
 	HeadUncond   bool          // some head print is unconditional
 	DetailPrints int           // Print*/Printf calls inside the Detail() region
 	DetailFields map[*types.Var]bool
+	DetailDirect map[*types.Var]bool // fields handed to a detail Print/Printf as values (not as text rendered beforehand)
 	RetNil       bool // formatter has a return nil
 	RetCause     bool // formatter has a return of the cause field
 	RetOther     bool
@@ -82,7 +83,7 @@ func GetShapes(c *core.Ctx) map[*types.Named]*TypeShape {
 					}
 					if sh.Formatter == nil && esh.Formatter != nil {
 						sh.Formatter, sh.FmtSafe, sh.HeadFields, sh.HeadOther, sh.HeadUncond = esh.Formatter, esh.FmtSafe, esh.HeadFields, esh.HeadOther, esh.HeadUncond
-						sh.DetailPrints, sh.DetailFields, sh.RetNil, sh.RetCause, sh.RetOther = esh.DetailPrints, esh.DetailFields, esh.RetNil, esh.RetCause, esh.RetOther
+						sh.DetailPrints, sh.DetailFields, sh.DetailDirect, sh.RetNil, sh.RetCause, sh.RetOther = esh.DetailPrints, esh.DetailFields, esh.DetailDirect, esh.RetNil, esh.RetCause, esh.RetOther
 						sh.Inherited = en
 					}
 				}
@@ -163,7 +164,7 @@ func singleReturnField(fn *ssa.Function) (*types.Var, bool) {
 }
 
 func computeShape(p *load.Program, et *ErrType) *TypeShape {
-	sh := &TypeShape{ET: et, ErrShape: ShUnknown, DetailFields: map[*types.Var]bool{}}
+	sh := &TypeShape{ET: et, ErrShape: ShUnknown, DetailFields: map[*types.Var]bool{}, DetailDirect: map[*types.Var]bool{}}
 	// Cause / Unwrap
 	var cf, uf *types.Var
 	if fn := methodFn(et, "Cause"); fn != nil && fn.Signature.Results().Len() == 1 && sx.IsErrorType(fn.Signature.Results().At(0).Type()) {
@@ -501,6 +502,11 @@ func classifyFormatter(p *load.Program, et *ErrType, sh *TypeShape) {
 						sh.DetailPrints++
 						for _, v := range vals {
 							markFields(fn, f, v, sh.DetailFields, 0)
+							if v != nil && f == fn {
+								if pth := recvFieldPath(fn, stripIface(v)); len(pth) == 1 {
+									sh.DetailDirect[pth[0]] = true
+								}
+							}
 						}
 						return
 					}
